@@ -687,6 +687,42 @@ def _spec_tables():
         return json.load(fh)
 
 
+def rule_snap_priority(ctx):
+    """R7: the documented rates are tried from the coarsest grid down: every multiple of 1000 Hz is also a multiple of 100 Hz, so the
+    100 Hz attempt is made only after the 1000 Hz attempt found nothing - in every copy of the snapping sequence (client and server
+    branch alike)"""
+    import struct
+    P = ctx.program
+
+    def fval(t):
+        t = T.strip(t)
+        if t[0] == "const" and isinstance(t[1], tuple) and t[1] and t[1][0] == "f":
+            return struct.unpack("<f", struct.pack("<I", t[1][1]))[0] if t[1][2] == 4 else struct.unpack("<d", struct.pack("<Q", t[1][1]))[0]
+        return None
+    n = 0
+    for b in sorted(P.bodies.values(), key=lambda x: x.path):
+        if b.crate != "huginn_net_tcp" or "::uptime::" not in b.path:
+            continue
+        S = None
+        for blk, t in b.calls():
+            if not callee_of(t).endswith("uptime::guess_frequency"):
+                continue
+            S = S or T.Slicer(b, P)
+            a = Q.call_args(b, S, blk, t)
+            base = fval(a[1]) if len(a) > 1 else None
+            for c in Q.canon_conds(P, T.dom_conds(b, S, blk)):
+                if c[0] == "variant" and ((c[2] == "None" and c[3]) or (c[2] == "Some" and not c[3])):
+                    g = T.strip(c[1])
+                    if g[0] == "call" and g[1].endswith("uptime::guess_frequency") and len(g[2]) > 1:
+                        first = fval(g[2][1])
+                        n += 1
+                        ok = base is not None and first is not None and first > base and first % base == 0
+                        ctx.check(ok, "R7", "snap-priority:%s@%d" % (T.short(b.path).split("::")[-1], n), "%s Hz is tried only after %s Hz found nothing" % (base, first),
+                                  "in %s the %s Hz grid is tried after the %s Hz grid failed: every rate the coarser grid would accept is already taken by the finer one "
+                                  "(a 1000 Hz clock is reported as 100 Hz and the uptime comes out ten times too large)" % (T.short(b.path), base, first), ctx.loc(b, blk))
+    ctx.floor("R7", "fallback snapping attempts", n, 2)
+
+
 def rule_R7(ctx):
     """R7: snapping a measured rate to the documented grid uses the NEAREST multiple of the base rate (round), and accepts it iff the
     per-multiple rate is within the tolerance of the base"""
@@ -745,6 +781,7 @@ def run(ctx):
     rule_twins(ctx)
     rule_R8(ctx)
     rule_R7(ctx)
+    rule_snap_priority(ctx)
     rule_R6(ctx)
     rule_R1_R2(ctx)
     rule_R3(ctx)
